@@ -105,13 +105,13 @@ impl<'a> Lexer<'a> {
     }
 
     fn number(&mut self, start: usize, c: char) -> TokenKind {
-        match self.s.peek() {
-            Some(c2) if !c2.is_ascii_digit() => match c {
+        // a sign that is not followed by a digit (or is the last character) is punctuation
+        if !self.s.peek().is_some_and(|c2| c2.is_ascii_digit()) {
+            match c {
                 '+' => return TokenKind::Plus,
                 '-' => return TokenKind::Minus,
                 _ => {}
-            },
-            _ => {}
+            }
         }
 
         let mut base = 10;
